@@ -28,6 +28,7 @@ struct BrokerCfg {
     vt silent_from = -1;                    // >= 0: stops answering (and sending) from this virtual time on
     vt silent_until = -1;                   // ... until this time (-1: for ever)
     bool answer_ping = true;
+    int drop_ack_pct = 0; vt drop_ack_until = 0;   // acknowledgements withheld (connection stays up) with this chance before that time
     std::string only_ack_topics;            // non-empty: only PUBLISHes whose topic contains one of the '|'-separated substrings are acknowledged
     uint16_t suback_granted_max = 2;
     int suback_fail_pct = 0;                // per-topic failing reason codes in SUBACK
@@ -97,6 +98,7 @@ public:
     bool quiet() const;                                // no scheduled output pending
     int pending_acks = 0;
     int accepted_connections = 0;
+    int acks_withheld = 0;
 
 private:
     World& w_;
